@@ -69,6 +69,64 @@ def default_canon(out):
     return _mask_dont_care(_ERR_KIND.sub("ERR", _INVALID_N.sub("INVALID", out)))
 
 
+class RepeatAware(object):
+    """`REPEAT <n> <line>` = the same case line executed n times in a row by one implementation thread; output = `<first answer> SAME`, or
+    `<first answer> DIFF@<k> <k-th answer>` when an answer differs from the first.  The inner line is judged by the property module on
+    the first answer; a DIFF is a violation by itself (the functions under test are functions)."""
+
+    def __init__(self, P):
+        self._P = P
+
+    def __getattr__(self, name):
+        return getattr(self._P, name)
+
+    @staticmethod
+    def _split(line, out):
+        inner = line.split(" ", 2)[2]
+        o = out if out is not None else ""
+        if " DIFF@" in o:
+            first, _, rest = o.partition(" DIFF@")
+            return inner, first, rest
+        if o.endswith(" SAME"):
+            return inner, o[:-5], None
+        return inner, o, None
+
+    def oracle(self, line, out, mode):
+        if not line.startswith("REPEAT "):
+            return self._P.oracle(line, out, mode)
+        inner, first, diff = self._split(line, out)
+        if diff is not None:
+            return "the same call repeated on one thread answers differently: call %s" % diff[:120]
+        return self._P.oracle(inner, first, mode)
+
+    def same(self, line, io, mo):
+        if not line.startswith("REPEAT "):
+            return self._P.same(line, io, mo)
+        inner, fi, di = self._split(line, io)
+        _, fm, _ = self._split(line, mo)
+        return di is None and (fi == fm or self._P.same(inner, fi, fm))
+
+    def classify(self, line, out):
+        if not line.startswith("REPEAT "):
+            return self._P.classify(line, out)
+        inner, first, diff = self._split(line, out)
+        return "REPEAT:" + self._P.classify(inner, first)
+
+    def nontrivial(self, line, out):
+        if not line.startswith("REPEAT "):
+            return self._P.nontrivial(line, out)
+        inner, first, _ = self._split(line, out)
+        return self._P.nontrivial(inner, first)
+
+    def known_class(self, line, out):
+        if not hasattr(self._P, "known_class"):
+            return None
+        if not line.startswith("REPEAT "):
+            return self._P.known_class(line, out)
+        inner, first, _ = self._split(line, out)
+        return self._P.known_class(inner, first)
+
+
 class PairAware(object):
     """`PAIR <line 1> || <line 2> ..` = several case lines executed one after the other by the same implementation thread (state that
     survives between calls is shared); output = the outputs joined by ` || `.  The property module's judgement functions are applied
@@ -133,7 +191,7 @@ class PairAware(object):
 
 
 def run_property(P, pid, tier, seed, replay):
-    P = PairAware(P)
+    P = PairAware(RepeatAware(P))
     canon = getattr(P, "canon", default_canon)
     t0 = time.time()
     rng = vlib.Rng(seed)
@@ -209,6 +267,12 @@ def run_property(P, pid, tier, seed, replay):
         log("replaying %d case(s) from %s" % (len(lines), replay))
     else:
         lines = list(P.corpus()) + list(P.cases(rng, tier))
+        # state that builds up over MANY calls: a few case lines are repeated 66 000 times (beyond any 8- or 16-bit counter) on one thread
+        rep = getattr(P, "REPEAT", 0)
+        if rep:
+            pick = [l for l in lines if len(l) < 3000 and l.split(" ")[0] in getattr(P, "REPEAT_CMDS", ())]
+            step = max(1, len(pick) // rep)
+            lines += ["REPEAT %d %s" % (66000 if tier == "quick" else 140000, l) for l in pick[::step][:rep]]
     # de-duplicate, keep order
     seen, uniq = set(), []
     for l in lines:
